@@ -79,8 +79,18 @@ func (lv *LeafVariants) canDelete() bool {
 		return true
 	}
 
-	// if we have runnig and only running we should not delete
-	if len(lv.les) == 1 && lv.les[0].Owner() == RunningIntentName {
+	// if we have runnig and, besides the schema default, only running we should not delete
+	hasRunning, onlyRunningOrDefault := false, true
+	for _, l := range lv.les {
+		switch l.Owner() {
+		case RunningIntentName:
+			hasRunning = true
+		case DefaultsIntentName:
+		default:
+			onlyRunningOrDefault = false
+		}
+	}
+	if hasRunning && onlyRunningOrDefault {
 		return false
 	}
 
